@@ -167,19 +167,20 @@ def injection(c):
         a = r["after"]
         obs = (code.get(r["exception"], 9), a["activity"], a["stack"], str(a["mode2D"]).lower(), str(bool(a["locked"])).lower(),
                str(bool(a["gparams"])).lower(), str(a["current"]).lower())
-        goals.append(f"Goal summarize (scenario_from_stream {o} {top} 1%N {nested} s0) = ({obs[0]}, ({obs[1]})%Z, {obs[2]}%nat, {obs[3]}, {obs[4]}, {obs[5]}, {obs[6]}). "
+        goals.append(f"Goal summarize (scenario_from_stream {o} {top} 1%N {nested} s0) = ({obs[0]}%nat, ({obs[1]})%Z, {obs[2]}%nat, {obs[3]}, {obs[4]}, {obs[5]}, {obs[6]}). "
                      "Proof. vm_compute. reflexivity. Qed.")
-    text = ("From Coq Require Import ZArith NArith List Bool.\nFrom Scenic Require Import C10.Frontend.\nImport ListNotations.\n"
+    header = ("From Coq Require Import ZArith NArith List Bool.\nFrom Scenic Require Import C10.Frontend.\nImport ListNotations.\n"
             "Definition isnil {A} (l : list A) := match l with [] => false | _ => true end.\n"
             "Definition summarize (r : option exn * vstate) :=\n"
             "  (match fst r with None => 0%nat | Some (EUser _) => 1%nat | Some EAssert => 2%nat | Some EIndex => 3%nat end,\n"
             "   activity (snd r), length (stack (snd r)), mode2D (snd r), isnil (locked (snd r)), isnil (gparams (snd r)),\n"
-            "   match current (snd r) with None => false | Some _ => true end).\n" + "\n".join(goals) + "\n")
+            "   match current (snd r) with None => false | Some _ => true end).\n")
+    text = header + "\n".join(goals) + "\n"
     ok, out = common.run_coq_cases("C10Inject", text, timeout=600)
     bad_line = None
     if not ok:
         m = re.search(r"line (\d+)", out)
-        bad_line = int(m.group(1)) - 9 if m else None
+        bad_line = int(m.group(1)) - header.count("\n") - 1 if m else None
     for i, r in enumerate(res):
         cs = r["case"]
         unsafe = (cs["level"] == 0 and cs["point"] in ("RNamespace", "RActEntry", "RActAfterIncr")) or (cs["level"] == 1 and cs["point"] == "RActAfterIncr")
@@ -229,13 +230,13 @@ def shrink(r):
         parts = text.split("\n") if unit else re.findall(r"\s+|\w+|[^\w\s]", text)
         n = max(1, len(parts) // 2)
         rounds = 0
-        while n >= 1 and rounds < 12:
+        while n >= 1 and rounds < 8:
             rounds += 1
             cands = []
             for i in range(0, len(parts), n):
                 cand = parts[:i] + parts[i + n:]
                 cands.append((unit or "").join(cand))
-            cands = [t for t in cands if t.strip()][:64]
+            cands = [t for t in cands if t.strip()][:32]
             if not cands:
                 break
             res = par("fuzz", [dict(id=i, text=t) for i, t in enumerate(cands)], {}, timeout=1200)
@@ -253,6 +254,9 @@ def shrink(r):
 
 def judge(c, r, src=None):
     oc = r["outcome"]
+    if oc == "timeout" and r.get("type") not in (None, "Timeout"):
+        # a different exception object than the hang detector's Timeout: it is a crash, not a hang
+        oc = "crash"
     c.hist("outcome:" + oc)
     c.hist("mutation:" + r.get("mutation", "?").split("+")[0])
     if oc.startswith("skip"):
@@ -266,13 +270,17 @@ def judge(c, r, src=None):
     if oc in ("ok", "syntax-error"):
         return
     rep = dict(outcome=oc, type=r.get("type"), func=r.get("func"), file=r.get("file"), msg=r.get("msg"), lineno=r.get("lineno"),
-               nlines=r.get("nlines"), mutation=r.get("mutation"), source=src, text=r.get("text"))
+               nlines=r.get("nlines"), mutation=r.get("mutation"), source=src, text=r.get("text"),
+               has_nul_byte="\x00" in (r.get("text") or ""))
     kind = {"crash": "crash", "recursion-error": "crash", "token-error": "unlocated-error", "timeout": "hang",
             "syntax-error-without-line": "error-location", "syntax-error-line-out-of-range": "error-location"}[oc]
     what = {"crash": "an internal exception escapes the front end", "hang": "the front end exceeds the per-input CPU budget",
             "unlocated-error": "a tokenizer error escapes the front end unconverted",
             "error-location": "a syntax error does not name a line of the input"}[kind]
-    if c.violation(kind, what, rep) and kind == "crash" and r.get("text") and not getattr(c, "_shrunk", {}).get(signature(r)):
+    new = c.violation(kind, what, rep)
+    if new and os.environ.get("C10_DEBUG"):
+        print("DBG", json.dumps({k: v for k, v in rep.items() if k != "text"})[:500], file=sys.stderr)
+    if new and kind == "crash" and r.get("text") and not os.environ.get("C10_NOSHRINK") and not getattr(c, "_shrunk", {}).get(signature(r)):
         c._shrunk = getattr(c, "_shrunk", {})
         c._shrunk[signature(r)] = True
         rep["text_minimised"] = shrink(r)
